@@ -732,13 +732,10 @@ def _composite_keystone_aperture(x, y, center_circle_diameter,
             # may be outside the usual corners
             lo = angle
             hi = angle+arc_rad
+            # keep hi = lo + arc_rad: move the whole interval, not one end of it
             while hi > 2*np.pi:
                 hi = hi - 2*np.pi
-            while lo > 2*np.pi:
                 lo = lo - 2*np.pi
-
-            if hi < lo:
-                lo, hi = hi, lo
 
             mid = lo + arc_rad / 2
             center_angles.append(mid)
